@@ -159,6 +159,17 @@ claim("C15",
       "recovery point reports, with a location spanning the offending text, is established by the injections only.",
       "Lean 4 proof (level table obligations + position bookkeeping theorems) + clean/injected/fuzzed diagnostics oracle")
 
+claim("C16",
+      "PARTIAL proof. Lean 4 theorems about the position bookkeeping model: skipBytes_eq_advance (the bulk update of skip_bytes equals advancing character by character: "
+      "all three code paths keep one position function), advance_spec (that function is: line feeds counted, UTF-16 length of the last line), advance_lt / "
+      "posOf_injective_on_prefixes (positions are strictly monotone along the source, so a stored location determines exactly one source slice); the code shapes are "
+      "re-extracted each run and the model is run against next / skip_whitespace / skip_bytes through a cfg hook. Oracle: every located node of the public AST (walked by "
+      "harness/src/astdump.rs) covers its spelling, lies inside its parent, siblings in source order; every token of the re-printing source map points at the start of its "
+      "source construct with the source spelling as name, output positions non-decreasing.",
+      "Trusted: Lean kernel; axioms ⊆ {propext, Classical.choice, Quot.sound}; extractor; differential tie; the AST walker. That each parser routine records positions at the "
+      "right moments is established by the oracle only.",
+      "Lean 4 proof (position function: bulk = stepwise, specification, strict monotonicity) + per-node location oracle + source-map oracle")
+
 claim("C02",
       "PARTIAL proof. Lean 4 theorems: every allocated identifier is an IdentifierName, never a reserved word / relied-upon global, never a preserved A–Z name, and distinct "
       "counters give distinct names (tables VAR_NAME_* and the reserved list re-extracted from the source each run); every string literal decodes (C12); every value "
